@@ -21,7 +21,9 @@ Has(f) == f \in DOMAIN E
 TraceCfg(i) == LET c == Traces[i].cfg IN
     [T |-> c.T, tries |-> c.tries, bufcap |-> c.bufcap, v4 |-> c.v4,
      xid |-> [x \in Callers |-> IF x <= Len(c.xid) THEN c.xid[x] ELSE 0],
-     urgent |-> c.urgent, timed |-> c.timed, cancelChecksIdentity |-> TRUE, timerPerIteration |-> FALSE]
+     urgent |-> c.urgent, timed |-> c.timed, cancelChecksIdentity |-> TRUE, timerPerIteration |-> FALSE,
+     maxCalls |-> 1000, wfault |-> TRUE,            \* the harness decides how often a caller calls and when a write fails
+     timeoutCarriesOver |-> FALSE, writeErrKeepsEntry |-> FALSE]
 
 TInit == /\ k \in 1..Len(Traces)
          /\ l = 1 /\ bad = FALSE
@@ -39,11 +41,11 @@ Consume ==
     /\ l <= Len(Ev)
     /\ CASE E.a = "Tick" -> Tick /\ now' = E.t
          [] E.a = "Start" -> AtTime /\ Start(E.c)
+         [] E.a = "Again" -> AtTime /\ Again(E.c)
          [] E.a = "SendLock" -> /\ AtTime /\ SendLock(E.c)
                                 /\ IF E.outcome = "refused" THEN cs'[E.c].res = "inuse"
                                    ELSE cs'[E.c].pc = "txpre" /\ cs'[E.c].ent = E.ent
-         [] E.a = "Transmit" -> /\ AtTime /\ Transmit(E.c)
-                                /\ E.ok = (cs'[E.c].pc = "wait")
+         [] E.a = "Transmit" -> /\ AtTime /\ (IF E.ok THEN Transmit(E.c) ELSE TransmitFail(E.c))
                                 /\ E.destok /\ E.same              \* C12: same bytes, requested destination
          [] E.a = "Wake" -> /\ AtTime
                             /\ (CASE E.reason = "recv" -> WakeRecv(E.c) /\ cs'[E.c].wd = E.d
